@@ -16,16 +16,19 @@ import contextlib
 import errno
 import gc
 import io
+import itertools
 import math
 import multiprocessing
 import os
 import pickle
+import shutil
 import signal
 import sys
+import tempfile
 import threading
 import time
-from collections import Counter
-from collections.abc import Mapping
+from collections import Counter, deque
+from collections.abc import Mapping, Sequence
 from concurrent.futures import Executor, Future, ProcessPoolExecutor
 from dataclasses import dataclass
 from pathlib import Path
@@ -316,6 +319,131 @@ def model_event(x):
     if k == 'submit':
         return ('submit', int(x[1]), tuple(int(i) for i in x[2]))
     return ('yield', model_result(x[1]))
+
+
+# ------------------------------------------------------------------ how the payloads reach the loop
+# parproc is declared as taking `payloads: Iterable[Any]`: the same payloads are handed over in every kind of iterable
+# (re-iterable containers, views, objects with only __iter__, one-shot iterators of every common origin), through every
+# public entry point of the package.  The model always sees the plain list.
+class ReIterable:
+    """only __iter__ (no __len__, no __getitem__, always truthy): every iter() starts over"""
+
+    def __init__(self, items):
+        self._items = list(items)
+
+    def __iter__(self):
+        return iter(list(self._items))
+
+
+class SizedIterable(ReIterable):
+    def __len__(self):
+        return len(self._items)
+
+
+class LazySequence(Sequence):
+    """a Sequence that is not a list (what an array / a lazily loaded corpus looks like)"""
+
+    def __init__(self, items):
+        self._items = list(items)
+
+    def __len__(self):
+        return len(self._items)
+
+    def __getitem__(self, i):
+        return self._items[i]
+
+
+class OneShot:
+    """an iterator object: iter() returns the object itself, a second pass finds nothing"""
+
+    def __init__(self, items):
+        self._it = iter(list(items))
+
+    def __iter__(self):
+        return self
+
+    def __next__(self):
+        return next(self._it)
+
+
+def _gen_function(items):
+    yield from items
+
+
+def _true(_):
+    return True
+
+
+def identity_(x):
+    return x
+
+
+CONTAINERS: dict[str, tuple[str, Any]] = {
+    'list': ('re-iterable', list),
+    'tuple': ('re-iterable', tuple),
+    'deque': ('re-iterable', deque),
+    'dict-values': ('re-iterable', lambda ps: dict(enumerate(ps)).values()),
+    'iterable-object': ('re-iterable', ReIterable),
+    'sized-iterable-object': ('re-iterable', SizedIterable),
+    'sequence-object': ('re-iterable', LazySequence),
+    'generator-expression': ('one-shot', lambda ps: (p for p in ps)),
+    'generator-function': ('one-shot', _gen_function),
+    'list-iterator': ('one-shot', lambda ps: iter(list(ps))),
+    'map': ('one-shot', lambda ps: map(identity_, ps)),
+    'filter': ('one-shot', lambda ps: filter(_true, ps)),
+    'chain': ('one-shot', lambda ps: itertools.chain(ps[:1], ps[1:])),
+    'reversed': ('one-shot', lambda ps: reversed(list(ps)[::-1])),
+    'iterator-object': ('one-shot', OneShot),
+}
+
+
+class QuietProgress:
+    def update(self, *a, **kw):
+        pass
+
+    def stop(self):
+        pass
+
+
+def _quiet(*a, **kw):
+    pass
+
+
+ENTRIES = ('parproc', 'parallel_proc', 'parproc_visual')
+# every (container, entry point) pair; rotated through by all run families
+VIAS = [(c, e) for c in CONTAINERS for e in ENTRIES]
+PLAIN_VIA = ('list', 'parproc')
+
+
+def call_entry(entry, payloads_in, parallel, reraise, mw, kw):
+    """the generator of Results for one run through the named public entry point"""
+    import tatsu.parproc as tp
+    if entry == 'parproc':
+        return tp.parproc(c18_func, payloads_in, 'A', parallel=parallel, reraise=reraise, max_workers=mw, k=1, **kw)
+    if entry == 'parallel_proc':       # the older argument order; max_workers travels in **kwargs
+        return tp.parallel_proc(payloads_in, c18_func, 'A', parallel=parallel, reraise=reraise, max_workers=mw, k=1, **kw)
+    if entry == 'parproc_visual':      # the loop the command line and tatsu.util.testing use, with the display switched off
+        return tp.parproc_visual(c18_func, payloads_in, QuietProgress(), 'A', eprint=_quiet, summary=False, verbose=False,
+                                 usecolor=False, parallel=parallel, reraise=reraise, max_workers=mw, k=1, **kw)
+    raise AssertionError(entry)
+
+
+def via_suffix(via, ok_with):
+    """signature material: which of (container kind, entry point) the disagreement depends on; ok_with(via) re-runs"""
+    cont, entry = via
+    if via == PLAIN_VIA:
+        return ''
+    if not ok_with(PLAIN_VIA):
+        return ''                                    # also with a plain list through parproc(): nothing to do with `via`
+    parts = []
+    if cont != 'list' and ok_with(('list', entry)):
+        parts.append('payloads=' + CONTAINERS[cont][0] + ('' if CONTAINERS[cont][0] == 'one-shot' else ':' + cont))
+    if entry != 'parproc' and ok_with((cont, 'parproc')):
+        parts.append('entry=' + entry)
+    if not parts:
+        parts = ['payloads=' + CONTAINERS[cont][0], 'entry=' + entry]
+    return ':' + ':'.join(parts)
+
 
 
 # ------------------------------------------------------------------ source shape
@@ -621,16 +749,17 @@ class Patched:
         return False
 
 
-def run_real(payloads, parallel, reraise, mw, sched, real_iter, tagged):
-    """one run of the real parproc under the rig -> (ending, results, events, rig)"""
+def run_real(payloads, parallel, reraise, mw, sched, real_iter, tagged, via=PLAIN_VIA):
+    """one run of the real loop under the rig -> (ending, results, events, rig); `via` = (container the payloads are
+    handed over in, public entry point)"""
     global RIG
-    from tatsu.parproc import parproc
     RIG = rig = Rig(sched, len(payloads), real_iter)
     sys.setrecursionlimit(LIMIT0)
     out = []
     kw = {'pickable': pick_tag} if tagged else {}
     try:
-        for r in parproc(c18_func, payloads, 'A', parallel=parallel, reraise=reraise, max_workers=mw, k=1, **kw):
+        handed = CONTAINERS[via[0]][1](payloads)
+        for r in call_entry(via[1], handed, parallel, reraise, mw, kw):
             c = canon_result(r, tagged)
             out.append(c)
             rig.events.append(('yield', c))
@@ -750,23 +879,25 @@ def run_x1(chk: Check, mr: ModelRun):
     cpu = multiprocessing.cpu_count()
     runs = []          # (descr, payloads, reraise, threads, mw, sched, real)
 
-    def one(payloads, parallel, reraise, threads, mw, sched, real_iter, tagged):
+    def one(payloads, parallel, reraise, threads, mw, sched, real_iter, tagged, via=PLAIN_VIA):
         with Patched(threads), contextlib.redirect_stderr(io.StringIO()):   # pmap prints "Wait..." on KeyboardInterrupt
-            real = run_real(payloads, parallel, reraise, mw, sched, real_iter, tagged)
+            real = run_real(payloads, parallel, reraise, mw, sched, real_iter, tagged, via)
+        chk.count('x1.payloads_as.' + via[0])
+        chk.count('x1.entry.' + via[1])
         return real
 
-    # exhaustive over schedules (stateless depth-first enumeration of the choice points)
-    all_configs = list(x1_configs(chk)) + list(x1_sweep_configs(chk))
-    for pat, reraise, threads, mw in all_configs:
+    def exhaust(pat, reraise, parallel, threads, mw, via_of):
+        """all schedules of one configuration (stateless depth-first enumeration of the choice points)"""
         payloads = build_payloads(pat)
         sched = []
         nsched = 0
         while True:
             real_iter = (nsched % 2 == 1)
             tagged = (nsched % 3 == 2)
-            ending, out, events, rig = one(payloads, True, reraise, threads, mw, sched, real_iter, tagged)
+            via = via_of(nsched)
+            ending, out, events, rig = one(payloads, parallel, reraise, threads, mw, sched, real_iter, tagged, via)
             full = (sched + [0] * len(rig.counts))[:len(rig.counts)]
-            runs.append((payloads, True, reraise, threads, mw, full, (ending, out, events), rig))
+            runs.append((payloads, parallel, reraise, threads, mw, full, (ending, out, events), rig, via, real_iter, tagged))
             nsched += 1
             chk.count('x1.exhaustive_runs')
             j = len(full) - 1
@@ -780,7 +911,31 @@ def run_x1(chk: Check, mr: ModelRun):
                                'max_workers': mw, 'schedules_seen': nsched})
                 break
             sched = full[:j] + [full[j] + 1]
+        return nsched
+
+    # exhaustive over schedules (stateless depth-first enumeration of the choice points)
+    all_configs = list(x1_configs(chk)) + list(x1_sweep_configs(chk))
+    for ci, (pat, reraise, threads, mw) in enumerate(all_configs):
+        # the first schedule of every configuration: plain list through parproc(); the others rotate through the
+        # (container, entry point) pairs
+        nsched = exhaust(pat, reraise, True, threads, mw,
+                         lambda k, ci=ci: PLAIN_VIA if k == 0 else VIAS[(5 * ci + 7 * k) % len(VIAS)])
         chk.count(f'x1.schedules.n{len(pat)}', nsched)
+    # the hand-over family: EVERY container x EVERY entry point, lists of 0..3 payloads (0..4 thorough), parallel with
+    # both executors and sequential, every schedule
+    for n in range(0, (3 if chk.quick else 4) + 1):
+        pats = [['ret'] * n]
+        if n:
+            pats.append(['exc:ValueError'] + ['ret'] * (n - 1))          # the FIRST payload is the one that stands out
+            pats.append(['exc:KeyError'] * n)
+        if n >= 2:
+            pats.append(['ret'] * (n - 1) + ['exc:ValueError'])
+            pats.append(['exc:RuntimeError'] + ['ret'] * (n - 1))        # propagates
+        for pat in pats:
+            for via in VIAS:
+                for parallel, threads, mw in ((True, False, 1), (True, True, 2), (False, False, None)):
+                    exhaust(pat, False, parallel, threads, mw, lambda k, via=via: via)
+                    chk.count('x1.handover_configs')
     # sequential mode and the single-task shortcut on the same patterns
     seen = set()
     for pat, reraise, threads, mw in all_configs:
@@ -789,8 +944,9 @@ def run_x1(chk: Check, mr: ModelRun):
             continue
         seen.add(key)
         payloads = build_payloads(pat)
-        ending, out, events, rig = one(payloads, False, reraise, False, mw, [], False, False)
-        runs.append((payloads, False, reraise, False, mw, [], (ending, out, events), rig))
+        via = VIAS[(3 * len(seen)) % len(VIAS)]
+        ending, out, events, rig = one(payloads, False, reraise, False, mw, [], False, False, via)
+        runs.append((payloads, False, reraise, False, mw, [], (ending, out, events), rig, via, False, False))
         chk.count('x1.sequential_runs')
     # sampled: longer lists, random behaviours, random schedules with large entries (exercise the modulo)
     rng = chk.rng
@@ -841,28 +997,43 @@ def run_x1(chk: Check, mr: ModelRun):
         reraise = rng.random() < 0.08
         parallel = rng.random() < 0.9
         sched = [rng.randint(0, 1000) for _ in range(n + 2)]
-        ending, out, events, rig = one(payloads, parallel, reraise, threads, mw, sched, it % 2 == 1, it % 3 == 0)
-        runs.append((payloads, parallel, reraise, threads, mw, sched, (ending, out, events), rig))
+        via = PLAIN_VIA if it % 4 == 0 else (rng.choice(list(CONTAINERS)), rng.choice(ENTRIES))
+        ending, out, events, rig = one(payloads, parallel, reraise, threads, mw, sched, it % 2 == 1, it % 3 == 0, via)
+        runs.append((payloads, parallel, reraise, threads, mw, sched, (ending, out, events), rig, via, it % 2 == 1, it % 3 == 0))
         chk.count('x1.sampled_runs')
 
     reqs = []
-    for payloads, parallel, reraise, threads, mw, sched, real, rig in runs:
+    for payloads, parallel, reraise, threads, mw, sched, real, rig, via, real_iter, tagged in runs:
         tasks = sx([task_sx(p, reraise) for p in payloads])
         reqs.append(f'(parproc {sx(parallel)} {sx(threads)} {mw or 0} {cpu} {sx(sched)} {tasks})')
         reqs.append(f'(pmap {sx(threads)} {mw or 0} {cpu} {sx(sched)} {tasks})')
     reps = mr.ask(reqs)
     bad = obad = 0
-    for idx, (payloads, parallel, reraise, threads, mw, sched, real, rig) in enumerate(runs):
+    for idx, (payloads, parallel, reraise, threads, mw, sched, real, rig, via, real_iter, tagged) in enumerate(runs):
         rp, rm = reps[2 * idx], reps[2 * idx + 1]
         m_end = model_ending(rp[0])
         m_out = [model_result(x) for x in rp[1]]
         used_pool = bool(rig.execs)
-        m_evs = [model_event(x) for x in rm[2]] if used_pool else []
+        m_evs_all = [model_event(x) for x in rm[2]]
+        m_evs = m_evs_all if used_pool else []
         ending, out, events = real
         if not used_pool:            # the consumer's yield marks only matter next to the pool's events
             events = [e for e in events if e[0] != 'yield']
         n = len(payloads)
-        chk.case(f'x1:{pattern_name(payloads, reraise)}:{parallel}:{threads}:{mw}:{sched}', nontrivial=n >= 2 and parallel)
+        chk.case(f'x1:{pattern_name(payloads, reraise)}:{parallel}:{threads}:{mw}:{sched}:{via[0]}:{via[1]}',
+                 nontrivial=n >= 2 and parallel)
+        plain = [expected_result(p, reraise) for p in payloads]
+
+        def ok_with(v):
+            """the same run with the payloads handed over as `v`: does it agree with the model (and the oracle)?"""
+            e2, o2, ev2, rig2 = one(payloads, parallel, reraise, threads, mw, sched, real_iter, tagged, v)
+            if not rig2.execs:
+                ev2 = [e for e in ev2 if e[0] != 'yield']
+            want2 = [('DetThreadPool' if threads else 'DetProcessPool', mw or cpu)] if rig2.execs else []
+            if not (e2 == m_end and o2 == m_out and ev2 == (m_evs_all if rig2.execs else []) and not rig2.notes
+                    and rig2.execs == want2):
+                return False
+            return not all(x is not None for x in plain) or (e2 == ('done',) and Counter(o2) == Counter(plain))
         # the window the pool was created with
         want_exec = []
         if used_pool:
@@ -874,23 +1045,25 @@ def run_x1(chk: Check, mr: ModelRun):
             if rig.execs != want_exec and shape == 'trace':
                 shape = 'executor-max-workers'
             mode = 'seq' if not parallel else 'thread' if threads else 'proc'
-            chk.violation(f'x1:{mode}:{shape}',
-                          f'parproc under the deterministic executor differs from the model ({shape}) for '
-                          f'{pattern_name(payloads, reraise)} mw={mw} schedule={sched}',
+            chk.violation(f'x1:{mode}:{shape}' + via_suffix(via, ok_with),
+                          f'{via[1]}() under the deterministic executor differs from the model ({shape}) for '
+                          f'{pattern_name(payloads, reraise)} handed over as {via[0]}, mw={mw} schedule={sched}',
                           {'correspondence': 'X1 deterministic executor', 'pattern': pattern_name(payloads, reraise),
+                           'payloads_as': via[0], 'entry': via[1],
                            'parallel': parallel, 'threads': threads, 'max_workers': mw, 'schedule': sched,
                            'impl': {'ending': ending, 'results': out, 'events': events, 'executors': rig.execs,
                                     'notes': rig.notes},
                            'model': {'ending': m_end, 'results': m_out, 'events': m_evs}})
         # oracle, independent of the model: no propagating task => one result per payload, same multiset as map()
-        plain = [expected_result(p, reraise) for p in payloads]
         if all(x is not None for x in plain):
             chk.count('x1.oracle_applicable')
             if ending != ('done',) or Counter(out) != Counter(plain) or (not parallel and out != plain):
                 obad += 1
-                chk.violation('oracle:x1:' + ('ending' if ending != ('done',) else 'multiset'),
-                              f'not exactly one result per payload for {pattern_name(payloads, reraise)} mw={mw} schedule={sched}',
+                chk.violation('oracle:x1:' + ('ending' if ending != ('done',) else 'multiset') + via_suffix(via, ok_with),
+                              f'not exactly one result per payload for {pattern_name(payloads, reraise)} handed to {via[1]}() '
+                              f'as {via[0]}, mw={mw} schedule={sched}',
                               {'oracle': 'exactly once', 'pattern': pattern_name(payloads, reraise), 'parallel': parallel,
+                               'payloads_as': via[0], 'entry': via[1],
                                'threads': threads, 'max_workers': mw, 'schedule': sched, 'ending': ending,
                                'results': out, 'expected_multiset': plain})
     chk.obligation('X1:parproc/executor_pmap under the deterministic executor vs ParProc.v (ending, yield order, '
@@ -1025,13 +1198,13 @@ def run_x2(chk: Check, mr: ModelRun):
         many.append(mk_payload(2 * i + 2, f'ret:{i}'))
     cases.append((many, False, 3, None, 'many-captured'))
 
-    def real_run(payloads, threads, mw):
+    def real_run(payloads, threads, mw, via=PLAIN_VIA):
         out = []
         mark = None
         sys.setrecursionlimit(LIMIT0)
         with (RealThreads() if threads else NoCtx()):
             try:
-                gen = parproc(c18_func, payloads, 'A', parallel=True, reraise=False, max_workers=mw, k=1)
+                gen = call_entry(via[1], CONTAINERS[via[0]][1](payloads), True, False, mw, {})
                 for r in gen:
                     out.append(canon_result(r))
                     if len(out) > 3 * len(payloads) + 5:
@@ -1051,14 +1224,22 @@ def run_x2(chk: Check, mr: ModelRun):
     reqs = []
     reals = []
     proxy_deaths = 0
-    for payloads, threads, mw, prop, kind in cases:
+    x2_vias = [v for v in VIAS if v[1] != 'parproc_visual']      # (the display wrapper runs under the deterministic executor)
+    vias = []
+    for ci, (payloads, threads, mw, prop, kind) in enumerate(cases):
         t0 = time.time()
+        # the sampled pool runs rotate through the containers and the two plain entry points; the special cases keep
+        # the plain list
+        via = x2_vias[(11 * ci + 5 * chk.seed) % len(x2_vias)] if kind == 'pool' else PLAIN_VIA
+        vias.append(via)
+        chk.count('x2.payloads_as.' + via[0])
+        chk.count('x2.entry.' + via[1])
         for attempt in range(3):
             # after a death by D18b the run is repeated with the cyclic GC switched off in the worker processes (the
             # defect is recorded once), so that its results can still be compared
             globals()['NO_GC_IN_WORKERS'] = attempt > 0 and kind != 'many-captured'
             try:
-                ending, out, mark = real_run(payloads, threads, mw)
+                ending, out, mark = real_run(payloads, threads, mw, via)
             finally:
                 globals()['NO_GC_IN_WORKERS'] = False
             if mark != 'stop-proxy' and kind != 'many-captured':
@@ -1086,12 +1267,16 @@ def run_x2(chk: Check, mr: ModelRun):
         reqs.append(f'(parproc 0 0 0 {cpu} () {tasks})')
     chk.count('x2.stop_proxy_deaths', proxy_deaths)
     bad = 0
-    for (payloads, threads, mw, prop, kind), (ending, out, dt), rep in zip(cases, reals, mr.ask(reqs)):
+    for (payloads, threads, mw, prop, kind), (ending, out, dt), rep, via in zip(cases, reals, mr.ask(reqs), vias):
         m_end = model_ending(rep[0])
         m_out = [model_result(x) for x in rep[1]]
         mode = 'thread' if threads else 'process'
         if out is None:
             continue
+
+        def x2_ok_with(v):
+            e2, o2, _ = real_run(payloads, threads, mw, v)
+            return e2 == ('done',) and Counter(o2) == Counter(m_out)
         if m_end == ('done',):
             if ending != ('done',) or Counter(out) != Counter(m_out):
                 bad += 1
@@ -1101,9 +1286,11 @@ def run_x2(chk: Check, mr: ModelRun):
                     why = 'raised:' + ending[1] if ending[0] == 'raised' else \
                         'lost' if len(out) < len(m_out) else 'duplicated' if len(out) > len(m_out) else 'different'
                     sig = f'x2:{mode}-pool:{why}' + ('' if kind in ('pool', 'unpicklable-exception') else ':' + kind)
+                    sig += via_suffix(via, x2_ok_with)
                 chk.violation(sig, f'real {mode} pool: results are not one per payload / not the sequential multiset for '
-                                   f'{pattern_name(payloads, False)} max_workers={mw}',
+                                   f'{pattern_name(payloads, False)} handed to {via[1]}() as {via[0]}, max_workers={mw}',
                               {'correspondence': 'X2 real pools', 'pattern': pattern_name(payloads, False), 'threads': threads,
+                               'payloads_as': via[0], 'entry': via[1],
                                'max_workers': mw, 'impl': {'ending': ending, 'results': out},
                                'sequential_model': {'ending': m_end, 'results': m_out}})
         else:
@@ -1152,13 +1339,18 @@ def main():
                 'lists up to 14 tasks with random behaviours from all of these, worker counts and schedules; sequential mode '
                 'on the same patterns. T1: exception lattice (about 80 classes + errnos + outcome objects + deep first / '
                 'second calls, also beyond 2**16) x reraise x raises() sets x visual retry. X2: real pools with sleeps, the '
-                'class sweep, legacy-deep and many-captured runs. Non-trivial: parallel with at least two tasks / an '
+                'class sweep, legacy-deep and many-captured runs. Hand-over (strengthening 7): the payloads are given as list, '
+                'tuple, deque, dict view, objects with only __iter__ / with __len__ / a Sequence, and as one-shot iterators '
+                '(generator expression and function, list iterator, map, filter, chain, reversed, iterator object), through '
+                'parproc(), parallel_proc() and parproc_visual() (display off): every pair for 0..3 payloads x both '
+                'executors and sequential x every schedule, and rotated through all other X1 / X2 run families. '
+                'Non-trivial: parallel with at least two tasks / an '
                 'exception is raised; distinct by pattern, mode, worker count and schedule.')
     chk.trusted += ['concurrent.futures: Future, the contract of as_completed (snapshot at the call, each future once, any '
                     'order; the real iterator is driven in half of the X1 runs) and of the pools; multiprocessing (fork), pickle',
                     'modelled: task.py taskproc, pmap.py executor_pmap/process_pmap/thread_pmap, parproc.py parproc; not '
                     'modelled: pickable (oracle: outcome == pickable(raw outcome)), the stop event set from outside, '
-                    'imap_pmap/interpreter_pmap (unreachable on 3.12), summary/visual']
+                    'imap_pmap/interpreter_pmap (unreachable on 3.12), summary, the display of parproc_visual (driven with summary=False, verbose=False and a silent progress object)']
     chk.assumptions += ['the stop event is clear when parproc starts and is only set by a KeyboardInterrupt in a task',
                         'a task runs when its future completes; pickable and payload.raises() do not raise',
                         'results and captured exceptions survive pickling (violations are reported by X2)']
@@ -1169,7 +1361,11 @@ def main():
     if ok:
         mr = ModelRun('ParProc')
         signal.signal(signal.SIGALRM, _alarm)
+        # parproc_visual writes the captured exceptions to ./log/<script>_<time>.log: run in a scratch directory
+        cwd0 = os.getcwd()
+        scratch = tempfile.mkdtemp(prefix='verif-c18-', dir='/var/tmp')
         try:
+            os.chdir(scratch)
             signal.alarm(600 if chk.quick else 3000)
             for phase in (run_table, run_x1, run_x2):
                 t0 = time.time()
@@ -1180,9 +1376,18 @@ def main():
             chk.violation('hang', str(e), {'hang': str(e)})
         finally:
             signal.alarm(0)
+            os.chdir(cwd0)
+            shutil.rmtree(scratch, ignore_errors=True)
     chk.exhaustive = False
     return chk.finish()
 
 
 if __name__ == '__main__':
-    sys.exit(main())
+    _rc = main()
+    if _rc:
+        # code under test that loses track of its pool can leave worker processes behind (seen with a stop event
+        # shared between runs): the interpreter would wait for them at exit, long after the verdict is out
+        sys.stdout.flush()
+        sys.stderr.flush()
+        os._exit(_rc)
+    sys.exit(_rc)
